@@ -18,7 +18,7 @@
 (*  RawUser .. HostPortSub   yarl/_url.py cached properties                *)
 (*  Str                      yarl/_url.py:URL.__str__                      *)
 (***************************************************************************)
-EXTENDS Text, Env, ImplQuote
+EXTENDS Text, Env, ImplQuote, Host
 
 OK(v)    == [ok |-> v]
 EXC(n)   == [exc |-> n]
@@ -264,4 +264,24 @@ UpdatePairs(items, new) ==
       keep == {j \in 1..Len(it) : it[j][1] \notin DOMAIN used \/ j < used[it[j][1]]} IN
   SelectSeq([j \in 1..Len(it) |-> <<j, it[j]>>], LAMBDA p : p[1] \in keep)
 UpdatePairsSeq(items, new) == LET u == UpdatePairs(items, new) IN [j \in 1..Len(u) |-> u[j][2]]
+
+\* ------------------------------------------------------------ _encode_host
+\* NOT_REG_NAME on the lower-cased ASCII host: a character outside a-z0-9-._~!$&'()*+,;=% or a '%' not
+\* followed by two lower-case-or-digit hex characters
+RECURSIVE RegNameOkFrom(_, _)
+RegNameOkFrom(h, i) ==
+  IF i > Len(h) THEN TRUE
+  ELSE IF h[i] = PCT THEN i + 2 <= Len(h) /\ h[i + 1] \in HexLower /\ h[i + 2] \in HexLower /\ RegNameOkFrom(h, i + 1)
+  ELSE h[i] \in (LowerAlpha \cup Digit \cup {45, 46, 95, 126} \cup SubDelims) /\ RegNameOkFrom(h, i + 1)
+\* ip_address() is modelled by Host.tla (cross-checked against CPython in HostTables.tla); non-ASCII hosts go
+\* through the idna package, which is outside the model: [gray |-> TRUE]
+EncodeHost(host, validate) ==
+  LET z == Partition(host, PCT)
+      ipLooking == host # <<>> /\ (Last(host) \in Digit \/ Has(host, COLON))
+      zoneTxt == IF z[2] THEN <<PCT>> \o z[3] ELSE <<>> IN
+  IF ipLooking /\ IsIPv6(z[1]) THEN OK(<<LBR>> \o Compressed(ParseIPv6(z[1])) \o zoneTxt \o <<RBR>>)
+  ELSE IF ipLooking /\ IsIPv4(z[1]) THEN OK(z[1] \o zoneTxt)
+  ELSE IF IsAscii(host) THEN
+       (LET low == LowerS(host) IN IF validate /\ ~RegNameOkFrom(low, 1) THEN EXC("ValueError") ELSE OK(low))
+  ELSE [gray |-> TRUE]
 =============================================================================
